@@ -1234,7 +1234,18 @@ class Interp:
         return NONE
 
     def ev_Lambda(self, e: ast.Lambda, fr: Frame) -> V:
-        raise Unsupported("lambda")
+        # a lambda is a closure whose body is one return statement
+        if e.args.defaults or e.args.kw_defaults:
+            raise Unsupported("lambda with default arguments")
+        node = ast.FunctionDef(name="<lambda>", args=e.args,
+                               body=[ast.Return(value=e.body)], decorator_list=[])
+        ast.copy_location(node, e)
+        ast.fix_missing_locations(node)
+        shim = types.SimpleNamespace(
+            __qualname__=f"{fr.qualname}.<locals>.<lambda>", __module__=getattr(
+                fr.fn, "__module__", "?"), __defaults__=(), __kwdefaults__={},
+            __globals__=fr.globals, __name__="<lambda>")
+        return VClosure(node, shim, fr)
 
     def ev_Starred(self, e: ast.Starred, fr: Frame) -> V:
         raise Unsupported("starred expression outside call/display")
